@@ -231,6 +231,10 @@ func (tx *FnTx) exec(in ssa.Instruction, st *State) *State {
 	case *ssa.Next:
 		return tx.next(x, st)
 	case *ssa.Send:
+		// a send has no effect on modelled state, but contracts may constrain what is handed over:
+		// `at call send:<channel name> assert ...` with callarg0 = the value sent
+		tx.curCallArgs = []Term{tx.val(x.X)}
+		tx.checkCallAsserts("send:"+fnValName(x.Chan), "before", st, st, nil)
 		tx.note("channel send in " + tx.key + ": no effect on modelled state")
 		return st
 	case *ssa.MakeChan:
